@@ -465,6 +465,10 @@ pub mod c09 {
     /// Contract of Response::from_stream as far as proxy_request relies on it: returns Ok(any response) or Err(any error).
     /// (That it *returns* for every byte stream is C03's HTTP-parser part, which this machinery cannot decide.)
     pub fn stub_response_from_stream<T: std::io::Read>(_stream: &mut T) -> Result<Response, ResponseError> {
+        // the upstream sends ONE response and then nothing more: a second read attempt sees end of stream
+        if g().read_started {
+            return Err(ResponseError::Stream);
+        }
         g().read_started = true;
         if g().parse_ok {
             let mut r = Response::empty(StatusCode::OK);
